@@ -243,6 +243,58 @@ static void dump(void)
 	}
 }
 template <size_t N> struct elem { uint8_t b[N]; };
+/* unique_array<elem<N>> works on the harness traits of kind A */
+namespace mpt {
+template<> const type_traits *type_properties<elem<8> >::traits() { return TR[0]; }
+template<> const type_traits *type_properties<elem<16> >::traits() { return TR[0]; }
+template<> const type_traits *type_properties<elem<24> >::traits() { return TR[0]; }
+}
+template <size_t N> struct UA : public mpt::unique_array<elem<N> > {
+	UA() : mpt::unique_array<elem<N> >() { }
+	void adopt(rawbuf *b) { this->_ref.set_instance(reinterpret_cast<mpt::content<elem<N> > *>(b)); }
+	rawbuf *release()
+	{
+		rawbuf *b = reinterpret_cast<rawbuf *>(this->_ref.detach());
+		/* the static immutable dummy of an empty array is no buffer of ours */
+		if (b && !b->size && (b->vptr->get_flags(b) & 0x103) == 0x103) return 0;
+		return b;
+	}
+};
+/* self-checking scenario: item_array<T>::compact() on n items, item i has an instance iff bit i of
+ * mask is set, every item has a name that needs heap storage (iff names); the counting metatypes and
+ * LeakSanitizer see a missing destructor call, ASan a second free.  Returns 0 or a failure code. */
+static int item_test(unsigned mask, int n, int names)
+{
+	long live0 = live_count;
+	{
+		mpt::item_array<cmeta> arr;
+		long want = 0, i;
+		bool r, expect = false;
+		for (i = 0; i < n; i++) {
+			cmeta *m = (mask >> i) & 1 ? new cmeta : 0;
+			if (m) ++want; else expect = true;
+			if (!arr.append(m, names ? longname : 0)) return 1;
+		}
+		if (arr.length() != n || arr.count() != want) return 2;
+		r = arr.compact();
+		if (r != expect) return 3;
+		if (r && arr.length() != want) return 4;
+		if (arr.count() != want) return 5;
+		for (i = 0; i < arr.length() && r; i++) if (!arr.get(i)->instance()) return 6;
+		if (live_count != live0 + want) return 7;
+	}
+	return live_count == live0 ? 0 : 8;
+}
+/* unique_array<T>::insert(pos) (op 'i') / resize(n) (op 'r') on the array that owns handle h */
+template <size_t N> static bool ua_op(int h, char op, long arg)
+{
+	UA<N> ua;
+	bool r;
+	if (H[h].buf) ua.adopt(H[h].buf);
+	r = op == 'i' ? ua.insert(arg) != 0 : ua.resize(arg);
+	H[h].buf = ua.release();
+	return r;
+}
 template <size_t N> static bool set_length(rawbuf *b, size_t bytes)
 {
 	return reinterpret_cast<mpt::content<elem<N> > *>(b)->set_length((long) (bytes / N));
@@ -282,6 +334,14 @@ static void run_case(int ntok, char **tok)
 	TR[1] = new type_traits(esz[1], finiB, initB);
 	while (t < ntok) {
 		const char *op = tok[t++];
+		if (!strcmp(op, "itest")) {
+			unsigned mask = vh_int(tok[t++]);
+			int n = vh_int(tok[t++]), names = vh_int(tok[t++]), r = item_test(mask, n, names);
+			if (r) vh_tok("bad%d", r); else vh_tok("ok");
+			evlog.clear();
+			dump();
+			continue;
+		}
 		int h = vh_int(tok[t++]);
 		rawbuf *b = H[h].buf;
 		if (!strcmp(op, "new")) {
@@ -374,6 +434,15 @@ static void run_case(int ntok, char **tok)
 				size_t s = k < 0 ? 1 : esz[k];
 				bool r = s == 8 ? set_length<8>(b, len) : s == 16 ? set_length<16>(b, len)
 				       : s == 24 ? set_length<24>(b, len) : set_length<1>(b, len);
+				vh_tok(r ? "ok" : "no");
+			}
+		}
+		else if (!strcmp(op, "uins") || !strcmp(op, "ures")) {
+			long arg = vh_int(tok[t++]);
+			if (lib_mode || (b && kind_of_traits(b->traits) != 0)) vh_tok("-");
+			else {
+				char o = op[1] == 'i' ? 'i' : 'r';
+				bool r = esz[0] == 8 ? ua_op<8>(h, o, arg) : esz[0] == 16 ? ua_op<16>(h, o, arg) : ua_op<24>(h, o, arg);
 				vh_tok(r ? "ok" : "no");
 			}
 		}
